@@ -273,7 +273,7 @@ func c16Cases(tier string) ([]chainCase, map[string]int) {
 		{"param-change", tx("gov_param", "G", "from", "G", "key", "pos/MaxValidators", "value", `"1"`)},
 		{"send-with-memo", func() TxSpec { t := tx("send", "A2", "to", "A1", "amount", "3"); t.Memo = "hello"; return t }()},
 	}
-	firstHeight := int64(env.Warmup + 1)
+	firstHeight := env.BaseHeight + int64(env.Warmup) + 1
 	for _, x := range txs {
 		orig, err := buildTxBytes(x.t, firstHeight)
 		if err != nil {
